@@ -9,7 +9,8 @@ shutil.copy(os.path.join(out, "patch.diff"), d)
 shutil.copy(os.path.join(out, "demo.py"), d)
 if os.path.exists(os.path.join(out, "notes.md")):
     shutil.copy(os.path.join(out, "notes.md"), d)
-res = open("/tmp/seed_check.txt").read().strip().splitlines()[-1] if os.path.exists("/tmp/seed_check.txt") else ""
+sc = os.environ.get("SEED_CHECK", "/tmp/seed_check.txt")
+res = open(sc).read().strip().splitlines()[-1] if os.path.exists(sc) else ""
 json.dump({"id": sid, "property": prop, "needs_to_manifest": needs,
            "confirmed": "scratch worktree of /repo HEAD: pinned suite still 106 passed with the change; demo.py exits 1 with the change and 0 without (tools/seed_eval.sh)",
            "check_run": "git -C /repo apply patch.diff; ./check %s; git -C /repo checkout -- ." % prop,
